@@ -99,6 +99,15 @@ func chk(rt *rapid.T, rec *kit.Rec, sig string, call func() []int, want []int) {
 	}
 }
 
+// fork1 applies the curried function f to a, and to two other arguments before and after; the two other
+// partial applications are dropped. Used for every non-final application of the curried families.
+func fork1[F ~func(A) R, A, R any](f F, a, before, after A) R {
+	_ = f(before)
+	r := f(a)
+	_ = f(after)
+	return r
+}
+
 func chkStr(rt *rapid.T, rec *kit.Rec, sig string, call func() string, want string) {
 	var got string
 	rec.Guard(rt, sig, func() { got = call() })
